@@ -13,9 +13,13 @@ External components re-defined here (and compared on every step by the correspon
 `list.append/insert/__setitem__/__delitem__/__getitem__` incl. slices (`sliceAdjust` = CPython
 `PySlice_AdjustIndices`), `list.index`, `collections.abc.MutableSequence.pop/remove/reverse/clear`.
 
-An `Item` is what the sequence can see of a content item: its concept name (equivalence class of
-`CodedConcept.__eq__`), relationship type, whether it is a `ContainerContentItem`, whether it has a
-`ContentSequence` attribute, and `uid` standing for all the rest of its content (`Dataset.__eq__`). -/
+An `Item` is what the sequence can see of a content item: its concept name AS A DICT KEY (the class of
+`CodedConcept.__hash__` + `__eq__`; two names that are `==` but hash differently — the SRT / SCT aliases, open
+finding C14-alias-names-split-index — are different keys), relationship type, whether it is a
+`ContainerContentItem`, whether it has a `ContentSequence` attribute, `uid` standing for all the rest of its
+content, and `obj` for the identity of the Python object.  Lean equality of items is identity (`is`);
+`Item.eqv` is `Dataset.__eq__` (everything but `obj`).  The index is maintained by identity (the repaired removal),
+`index` / `in` compare with `==`. -/
 namespace HdVerif.SRContentSeq
 
 structure Item where
@@ -24,7 +28,12 @@ structure Item where
   isContainer : Bool
   hasContent : Bool
   uid : Nat
+  obj : Nat
   deriving DecidableEq, Repr
+
+/-- `Dataset.__eq__`: equal content, whatever the object -/
+def Item.eqv (a b : Item) : Bool :=
+  a.name == b.name && a.rel == b.rel && a.isContainer == b.isContainer && a.hasContent == b.hasContent && a.uid == b.uid
 
 abbrev Lut := Nat → List Item
 
@@ -141,6 +150,13 @@ def insert (s : Seq) (pos : Int) (it : Item) : Res :=
   | .ok _ =>
     let p := insertPos s.items.length pos
     ({ s with lut := lutAdd s.lut it, items := s.items.take p ++ it :: s.items.drop p }, none)
+
+/-- `insert(position, it)` with a position that is not an int (`1.0`, `None`, a string): the checks come first,
+then `list.insert` raises TypeError — before the index is touched (repaired order) -/
+def insertBad (s : Seq) (it : Item) : Res :=
+  match insertCheck s it with
+  | .error e => (s, some e)
+  | .ok _ => (s, some .type)
 
 /-! ## indices and slices of the underlying list -/
 
@@ -282,8 +298,9 @@ def delSlice (s : Seq) (start stop step : Option Int) : Res :=
 
 /-- `seq.index(x)`: look-up table first (ValueError), then the position in the list -/
 def index (s : Seq) (x : Item) : Except ErrKind Nat :=
-  if x ∈ s.lut x.name then
-    if s.items.idxOf x < s.items.length then .ok (s.items.idxOf x) else .error .value
+  if (s.lut x.name).any (fun y => y.eqv x) then          -- `matches.index(val)`: some entry is == val
+    if s.items.findIdx (fun y => y.eqv x) < s.items.length then .ok (s.items.findIdx (fun y => y.eqv x))
+    else .error .value                                   -- `super().index(val)`: first position that is == val
   else .error .value
 
 /-- `x in seq` -/
@@ -356,7 +373,9 @@ inductive Op
   | append (x : Item)
   | extend (xs : List Item)
   | iadd (xs : List Item)
+  | extendSelf                        -- `seq.extend(seq)` / `seq += seq`: the argument is copied first
   | insert (pos : Int) (x : Item)
+  | insertBad (x : Item)
   | setItem (i : Int) (x : Item)
   | setSlice (start stop step : Option Int) (xs : List Item)
   | delItem (i : Int)
@@ -377,7 +396,9 @@ def step (s : Seq) : Op → Res
   | .append x => append s x
   | .extend xs => extend s xs
   | .iadd xs => extend s xs
+  | .extendSelf => extend s s.items
   | .insert pos x => insert s pos x
+  | .insertBad x => insertBad s x
   | .setItem i x => setItem s i x
   | .setSlice a b c xs => setSlice s a b c xs
   | .delItem i => delItem s i
@@ -565,6 +586,8 @@ def runIadd (args : List Item) (s : Seq) : Res := runWith call2 Gen.csProg_iadd 
 def runInsert (pos : Int) (args : List Item) (s : Seq) : Res := runWith call2 Gen.csProg_insert (.pos pos) args s
 def runSetitem (idx : Idx) (args : List Item) (s : Seq) : Res := runWith call2 Gen.csProg_setitem idx args s
 def runDelitem (idx : Idx) (s : Seq) : Res := runWith call2 Gen.csProg_delitem idx [] s
+/-- `insert` with a position that is not an int: no position to hand to `list.insert` -/
+def runInsertBad (args : List Item) (s : Seq) : Res := runWith call2 Gen.csProg_insert .none args s
 
 /-- the constructor: the program runs on a blank object; an error means no object -/
 def runInit (items : List Item) (isRoot isSr : Bool) : Except ErrKind Seq :=
@@ -599,9 +622,10 @@ def execIndex (p : IndexProg) (s : Seq) (x : Item) : Except ErrKind Nat :=
   if !p.bucketKeyIsArgName then .error .other
   else
     let bucket := s.lut x.name
-    if p.membershipInBucket && !(bucket.contains x) then .error .value
+    if p.membershipInBucket && !(bucket.any (fun y => y.eqv x)) then .error .value
     else match p.result with
-      | .listIndex => if s.items.idxOf x < s.items.length then .ok (s.items.idxOf x) else .error .value
-      | .bucketIndex => .ok (bucket.idxOf x)
+      | .listIndex =>
+        if s.items.findIdx (fun y => y.eqv x) < s.items.length then .ok (s.items.findIdx (fun y => y.eqv x)) else .error .value
+      | .bucketIndex => .ok (bucket.findIdx (fun y => y.eqv x))
 
 end HdVerif.SRContentSeq
